@@ -391,12 +391,13 @@ static int ls_main_seq2(int argc, char **argv, const ls_func *funcs, int nfuncs,
                         continue;
                     }
 #ifdef LS_NEWCHILD
-                    if (o->inst == 3) {
+                    if (o->inst == 3 || o->inst == 4) {
                         /* B = <module>NewChild(A): used for modules without start, tables and shared memories, where a child is
                            specified to be a fresh instance of its own (the reference simply instantiates a second instance) */
                         ls_tr_ref.n = 0; refB = wr_instantiate(ls_mod, &e);
                         ls_cur_inst = &ls_inst; ls_tr_impl.n = 0;
-                        ls_in_impl = 1; if (setjmp(ls_jb) == 0) pB = mNewChild(&ls_inst); ls_in_impl = 0;
+                        /* inst 4: a child of a child (second generation), as a thread spawned by a spawned thread gets */
+                        ls_in_impl = 1; if (setjmp(ls_jb) == 0) { pB = mNewChild(&ls_inst); if (pB && o->inst == 4) pB = mNewChild(pB); } ls_in_impl = 0;
                         if (!pB) { pB = &instB; printf("ERROR NewChild returned NULL\n"); return 2; }
                         ls_cur_inst = pB; ls_ref = refB; ls_compare_init_traces("newchild-B"); haveB = 1; steps++;
                         continue;
